@@ -202,12 +202,13 @@ func (s *Solver) emitDef(t *Term) {
 
 // ensureTables declares all known tables at base level (they survive pops).
 func (s *Solver) ensureTables() {
-	if s.nTables == len(TS.tables) {
+	nt := numTables()
+	if s.nTables == nt {
 		return
 	}
 	s.popTo(0)
-	for id := s.nTables; id < len(TS.tables); id++ {
-		tb := TS.tables[id]
+	for id := s.nTables; id < nt; id++ {
+		tb := getTable(id)
 		// a constant table is a function of its index bits: balanced ite tree (bit-blasts well)
 		nb := uint8(1)
 		for (1 << nb) < len(tb.vals) {
@@ -226,7 +227,7 @@ func (s *Solver) ensureTables() {
 		}
 		s.send(fmt.Sprintf("(define-fun tbl%d ((i (_ BitVec %d))) (_ BitVec %d) %s)", id, tb.iw, tb.w, build(0, 1<<nb, int(nb)-1)))
 	}
-	s.nTables = len(TS.tables)
+	s.nTables = nt
 }
 
 func (s *Solver) push(t *Term) {
